@@ -90,6 +90,7 @@ package network
 
 //@ func (*Driver).SendCommand [C04 C05]
 //@   requires d.DefaultDesiredPriv != "" && RI(d.Channel.Q) && d.Channel.PromptSearchDepth >= 0
+//@   ensures RI(d.Channel.Q)
 //@   at call! SendCommand#1 assert #commands-run-at-the-default-level old(d.CurrentPriv) == d.DefaultDesiredPriv || acquired == d.DefaultDesiredPriv
 //@   ensures #implicit-privilege-failure-is-a-privilege-error old(d.CurrentPriv) != d.DefaultDesiredPriv && acquired != d.DefaultDesiredPriv ==> isErr(result.1, util.ErrPrivilegeError) && result.0 == nil
 
